@@ -285,6 +285,17 @@ def stepEnf (st : DrvState) (f : List String) : Option (DrvState × String) :=
      | none => some (st, "no-kept")
      | some none => some (upd st (e.setRoleManagerWith e.rm))
      | some (some r) => some (upd { st with keptRm := some none } (e.setRoleManagerWith r)))
+  | ["e.rmh", "add", a, b, d] =>
+    -- the caller edits the role manager through the kept handle
+    (match st.keptRm with
+     | none => some (st, "no-kept")
+     | some none => some ({ st with enf := { e with rm := e.rm.addLink (unesc a) (unesc b) (domOf d) } }, "ok")
+     | some (some r) => some ({ st with keptRm := some (some (r.addLink (unesc a) (unesc b) (domOf d))) }, "ok"))
+  | ["e.rmh", "clear"] =>
+    (match st.keptRm with
+     | none => some (st, "no-kept")
+     | some none => some ({ st with enf := { e with rm := e.rm.clear } }, "ok")
+     | some (some r) => some ({ st with keptRm := some (some r.clear) }, "ok"))
   | ["e.setmodel"] =>
     let r := e.setModel st.spec.defs st.spec.store
     some ({ st with enf := r.1, tbl := st.spec.tbl }, resS r.2)
